@@ -340,6 +340,8 @@ func VH_c07_server_guards() {
 	c := vNeighbor(2, 65001, 65000, fams)
 	limit := vInt("max_prefixes", 0, 2)
 	c.AfiSafis[0].PrefixLimit.Config.MaxPrefixes = uint32(limit)
+	// a warning threshold (percent of the maximum) may be crossed by the same UPDATE that crosses the maximum
+	c.AfiSafis[0].PrefixLimit.Config.ShutdownThresholdPct = oc.Percentage(vU8("shutdown_threshold_pct") % 101)
 	p := vEstablished(s, c, fams)
 	state := bgp.FSMState(vChoice("state", 6)) // Idle .. Established
 	p.fsm.state.Store(state)
